@@ -54,6 +54,10 @@ class EEMSRead(Command):
             variable = dataset[variable_name]
             data = variable[:]
 
+        # Cells that hold the declared missing value are missing data: the type checks below are about the data
+        if "MissingValue" in kwargs:
+            data = numpy.ma.masked_where(numpy.ma.getdata(data) == kwargs["MissingValue"], data, copy=False)
+
         if self.get_argument_value("DataType", "Float") in ("Positive Integer", "Positive Float") and (data < 0).any():
             raise InvalidPositiveData(path, kwargs["DataType"], lineno=self.lineno)
 
